@@ -17,7 +17,7 @@ set_option linter.unusedSimpArgs false
 
 namespace LndModel.C15
 
-variable {P : List (Nat × Nat) → Nat → Nat → Nat}
+variable {P : List (Nat × Nat) → Nat → Nat → Nat} {drop : Bool}
 
 /-! ### statement vocabulary -/
 
@@ -171,14 +171,15 @@ theorem settle_only_if_paid_amp (H : Nat → Nat) (P : List (Nat × Nat) → Nat
     (`aacc`) together with the new htlc declare one common total `≥` invoice value, the MPP record
     carries the invoice's payment address, and their amounts sum to at least that total; exactly
     these htlcs move to settled (`settleOne`), each with the child preimage whose hash was
-    compared with the htlc's payment hash. -/
+    compared with the htlc's payment hash.  (`akeep`: the records that stay stored — all on the
+    SQL store; on the kv store all accepted ones and every other set id's, see `akeep`.) -/
 theorem settle_only_if_paid_amp_set {H : Nat → Nat} {ctx : Ctx} {a : AmpInv} {p : Nat} {ht : Int}
-    (hr : (anotify H P ctx a).2.1 = .settle .settled p ht) :
+    (hr : (anotify H P drop ctx a).2.1 = .settle .settled p ht) :
     ∃ total addr, effMpp ctx = some (total, addr) ∧ addr = a.payAddr ∧ a.value ≤ total ∧
       (∀ g ∈ aacc ctx a, g.base.mppTotal = total) ∧
       total ≤ sumAmt ((aacc ctx a).map (·.base)) + ctx.amt ∧
-      (anotify H P ctx a).1.htlcs =
-        (a.htlcs ++ [mkAHtlc ctx total (decide (addr = a.payAddr))]).map
+      (anotify H P drop ctx a).1.htlcs =
+        (akeep drop ctx a ++ [mkAHtlc ctx total (decide (addr = a.payAddr))]).map
           (settleOne P ctx (adescs ctx (aacc ctx a))) :=
   anotify_settle_set hr
 
@@ -195,31 +196,44 @@ theorem margin_plain {expiry : Nat} {height delta : Int}
 /-! ### must: states_monotone -/
 
 /-- **states_monotone** (one event). Every invoice of a reachable registry — plain (`Mono`) or AMP
-    (`AMono`) — is still present after the next event with the same terms, its state moved along
+    — is still present after the next event with the same terms, its state moved along
     open → accepted → settled | canceled (AMP: open → canceled), and each of its htlcs is still
     recorded with the same terms and a state moved along accepted → settled | canceled; a settled
-    AMP htlc keeps its preimage. -/
+    AMP htlc keeps its preimage.  For AMP invoices this is `AMonoD (!cfg.sql)`: on the native SQL
+    store exactly the statement above (`AMono`, see `states_monotone_sql`); on the kv store an AMP
+    htlc that is no longer accepted may be missing afterwards (lnd's kv store forgets the settled /
+    canceled htlcs of a set id when a settled set id is paid again: finding
+    F-c15-kv-amp-setid-reuse), every accepted AMP htlc is still recorded. -/
 theorem states_monotone (H : Nat → Nat) (P : List (Nat × Nat) → Nat → Nat → Nat) (cfg : Cfg)
     (evs : List Event) (e : Event) :
     let reg := run H P cfg Reg.empty evs
     (∀ i ∈ reg.invs, ∃ i' ∈ (step H P cfg reg e).1.invs, Mono i i') ∧
+    (∀ a ∈ reg.amps, ∃ a' ∈ (step H P cfg reg e).1.amps, AMonoD (!cfg.sql) a a') := by
+  intro reg
+  exact step_monoD (reachable_good H P cfg evs)
+
+/-- **states_monotone** on the native SQL store: AMP invoices too keep every htlc. -/
+theorem states_monotone_sql (H : Nat → Nat) (P : List (Nat × Nat) → Nat → Nat → Nat) (cfg : Cfg)
+    (hsql : cfg.sql = true) (evs : List Event) (e : Event) :
+    let reg := run H P cfg Reg.empty evs
     (∀ a ∈ reg.amps, ∃ a' ∈ (step H P cfg reg e).1.amps, AMono a a') := by
   intro reg
-  exact step_mono (reachable_good H P cfg evs)
+  exact (step_mono (reachable_good H P cfg evs) hsql).2
 
-/-- **states_monotone** (any number of further events). -/
+/-- **states_monotone** (any number of further events): plain invoices on both stores, AMP
+    invoices on the native SQL store. -/
 theorem states_monotone_run (H : Nat → Nat) (P : List (Nat × Nat) → Nat → Nat → Nat) (cfg : Cfg)
     (evs more : List Event) :
     let reg := run H P cfg Reg.empty evs
     (∀ i ∈ reg.invs, ∃ i' ∈ (run H P cfg reg more).invs, Mono i i') ∧
-    (∀ a ∈ reg.amps, ∃ a' ∈ (run H P cfg reg more).amps, AMono a a') := by
+    (cfg.sql = true → ∀ a ∈ reg.amps, ∃ a' ∈ (run H P cfg reg more).amps, AMono a a') := by
   intro reg
   have hg : RegGood H cfg.rejectDelta reg := reachable_good H P cfg evs
   clear_value reg
   induction more generalizing reg with
-  | nil => exact ⟨fun i hi => ⟨i, hi, Mono.refl i⟩, fun a ha => ⟨a, ha, AMono.refl a⟩⟩
+  | nil => exact ⟨fun i hi => ⟨i, hi, Mono.refl i⟩, fun _ a ha => ⟨a, ha, AMono.refl a⟩⟩
   | cons e es ih =>
-    obtain ⟨s1, s2⟩ := step_mono (P := P) (cfg := cfg) (e := e) hg
+    obtain ⟨s1, s2⟩ := step_monoD (P := P) (cfg := cfg) (e := e) hg
     have hg1 := step_good (P := P) (e := e) hg rfl
     obtain ⟨t1, t2⟩ := ih _ hg1
     refine ⟨?_, ?_⟩
@@ -227,9 +241,9 @@ theorem states_monotone_run (H : Nat → Nat) (P : List (Nat × Nat) → Nat →
       obtain ⟨i1, h1, m1⟩ := s1 i hi
       obtain ⟨i2, h2, m2⟩ := t1 i1 h1
       exact ⟨i2, h2, m1.trans m2⟩
-    · intro a ha
-      obtain ⟨a1, h1, m1⟩ := s2 a ha
-      obtain ⟨a2, h2, m2⟩ := t2 a1 h1
+    · intro hsql a ha
+      obtain ⟨a1, h1, m1⟩ := (step_mono (P := P) (cfg := cfg) (e := e) hg hsql).2 a ha
+      obtain ⟨a2, h2, m2⟩ := t2 hsql a1 h1
       exact ⟨a2, h2, m1.trans m2⟩
 
 /-- no htlc is both settled and canceled: a settled htlc stays settled, a canceled one stays
